@@ -12,6 +12,11 @@ pub fn multi_error_text(p: &mut Prng) -> String {
         s.push_str(&format!("    fn z{}(Self) -> int32;\n", (b'a' + k as u8) as char));
     }
     s.push_str("}\n\nstruct Zs {}\n\nimpl Zt for Zs {\n}\n\n");
+    if p.chance(1, 3) {
+        // two enums of one package share a variant name and the program uses it unqualified:
+        // which enum is meant must be reported as ambiguous, the same way every time
+        s.push_str("enum ZLeft {\n    ZStop,\n    ZGo(int32),\n}\n\nenum ZRight {\n    ZStop,\n    ZTurn,\n}\n\nenum ZThird {\n    ZTurn,\n    ZStop,\n}\n\nfn zpick() -> ZLeft {\n    ZStop\n}\n\nfn zpick2() -> int32 {\n    match ZTurn {\n        _ => 1,\n    }\n}\n\n");
+    }
     let ne = 1 + p.usize(3);
     for k in 0..ne {
         match p.below(3) {
@@ -54,12 +59,19 @@ pub enum Illegal {
     OrphanImplGenericArg,
     /// a file of a multi-file package uses a package that only its sibling files import
     /// (0 = two-segment call, 1 = three-segment inherent path, 2 = three-segment trait path,
-    /// 3 = struct literal, 4 = struct pattern, 5 = enum variant pattern, 6 = enum constructor)
+    /// 3 = struct literal, 4 = struct pattern, 5 = enum variant pattern, 6 = enum constructor,
+    /// 7 = trait bound of a generic function)
     NotImportedInThisFile(u8),
     /// impl of a foreign trait for a builtin type (0 Vec[int32], 1 Ref[int32], 2 int32, 3 string,
     /// 4 tuple, 5 array, 6 function type, 10 Vec[foreign struct], 11 unit), or an inherent impl
     /// for a type that is not the package's own (7 Vec[int32], 8 int32, 9 foreign struct)
     OrphanImplBuiltin(u8),
+    /// package Main implements its own trait twice, the second time naming it `Main::ZzT`
+    /// (0 = plain then qualified, 1 = both qualified)
+    DuplicateImplSpelled(u8),
+    /// a library type named like a builtin container (0 = `Vec[T]`, 1 = `Ref[T]`), used with its
+    /// package qualifier (legal); the illegal project hands such a value to the builtin function
+    BuiltinNamedType(u8),
     /// like NotImportedInThisFile(1|2), and the package also has an own item (a struct) with the
     /// very name of the package that the file fails to import
     NotImportedInThisFileShadowed(u8),
@@ -90,7 +102,7 @@ pub enum Via {
     StructPattern,
 }
 
-pub const ILLEGAL_KINDS: [Illegal; 46] = [
+pub const ILLEGAL_KINDS: [Illegal; 51] = [
     Illegal::NotImported,
     Illegal::NotImportedVia(Via::SignatureType),
     Illegal::NotImportedVia(Via::LetAnnotation),
@@ -137,6 +149,11 @@ pub const ILLEGAL_KINDS: [Illegal; 46] = [
     Illegal::DuplicateImplForeign(2),
     Illegal::NotImportedInThisFileShadowed(1),
     Illegal::NotImportedInThisFileShadowed(2),
+    Illegal::DuplicateImplSpelled(0),
+    Illegal::DuplicateImplSpelled(1),
+    Illegal::BuiltinNamedType(0),
+    Illegal::BuiltinNamedType(1),
+    Illegal::NotImportedInThisFile(7),
 ];
 
 fn reaches(proj: &Project, from: usize, to: usize) -> bool {
@@ -343,6 +360,40 @@ pub fn inject(proj: &Project, kind: &Illegal, p: &mut Prng) -> Option<(Files, Fi
             ));
             desc = format!("{} implements foreign trait {q}::ZzT for foreign generic type {r}::ZzG instantiated at its own type ZzL", proj.pkgs[pi].name);
         }
+        Illegal::DuplicateImplSpelled(form) => {
+            twin.pkgs[0].raw.push_str("\ntrait ZzT {\n    fn zz(Self) -> int32;\n}\n\nstruct ZzS {\n    x: int32,\n}\n");
+            let one = |spelled: &str, k: u32| format!("\nimpl {spelled} for ZzS {{\n    fn zz(self: ZzS) -> int32 {{\n        {k}\n    }}\n}}\n");
+            bad = twin.clone();
+            // the legal twin has one impl, spelled with the package qualifier
+            twin.pkgs[0].raw_last.push_str(&one("Main::ZzT", 1));
+            bad.pkgs[0].raw_last.push_str(&one(if form % 2 == 0 { "ZzT" } else { "Main::ZzT" }, 1));
+            bad.pkgs[0].raw_last.push_str(&one("Main::ZzT", 2));
+            desc = format!("Main implements its trait ZzT for ZzS twice, the second time spelled Main::ZzT (form {form})");
+        }
+        Illegal::BuiltinNamedType(form) => {
+            let mut cands = Vec::new();
+            for pi in 0..n {
+                if !proj.pkgs[pi].imports.is_empty() {
+                    cands.push(pi);
+                }
+            }
+            if cands.is_empty() {
+                return None;
+            }
+            let pi = *p.pick(&cands);
+            let qi = *p.pick(&proj.pkgs[pi].imports);
+            let q = proj.pkgs[qi].name.clone();
+            let (ty, builtin_fn) = if form % 2 == 0 { ("Vec", "vec_len") } else { ("Ref", "ref_get") };
+            twin.pkgs[qi].raw.push_str(&format!(
+                "\nstruct {ty}[T] {{\n    zzv: T,\n}}\n\nfn zz_mkv() -> {q}::{ty}[int32] {{\n    {q}::{ty} {{ zzv: 1 }}\n}}\n"
+            ));
+            twin.pkgs[pi].raw_last.push_str(&format!(
+                "\nfn zz_usev() -> int32 {{\n    let x: {q}::{ty}[int32] = {q}::zz_mkv();\n    x.zzv\n}}\n"
+            ));
+            bad = twin.clone();
+            bad.pkgs[pi].raw_last.push_str(&format!("\nfn zz_bad() -> int32 {{\n    let y = {builtin_fn}({q}::zz_mkv());\n    1\n}}\n"));
+            desc = format!("{} hands a value of the library type {q}::{ty}[int32] to the builtin {builtin_fn}", proj.pkgs[pi].name);
+        }
         Illegal::NotImportedInThisFileShadowed(form) => {
             let (t, b, d) = inject(proj, &Illegal::NotImportedInThisFile(*form), p)?;
             // which package fails to be imported, and by whom? recover it from the description
@@ -380,7 +431,8 @@ pub fn inject(proj: &Project, kind: &Illegal, p: &mut Prng) -> Option<(Files, Fi
             twin.pkgs[pi].raw.push_str(&format!(
                 "\nfn zz_loc() -> {qn}::ZzS {{\n    {qn}::zz_mk()\n}}\n\nfn zz_loc_e() -> {qn}::ZzE {{\n    {qn}::zz_mk_e()\n}}\n"
             ));
-            let item = match form % 7 {
+            let item = match form % 8 {
+                7 => format!("fn zz_use[X: {qn}::ZzT](x: X) -> int32 {{\n    1\n}}\n"),
                 0 => format!("fn zz_use() -> int32 {{\n    {qn}::zz_pub()\n}}\n"),
                 1 => format!("fn zz_use() -> int32 {{\n    {qn}::ZzS::zzn()\n}}\n"),
                 2 => format!("fn zz_use() -> int32 {{\n    {qn}::ZzT::zz({qn}::zz_mk())\n}}\n"),
